@@ -11,6 +11,19 @@ def ls(loc):
     return {'b': b, 'r': r, 'info': os.path.exists(os.path.join(loc, 'xyz-settings.jbdmp'))}
 
 
+def read_batches(loc, sw):
+    """batch files as lists of locations (ranks in fn_args order), by batch id"""
+    import pickle
+    out = {}
+    fa = sweeps.fn_args(sw)
+    for f in glob.glob(os.path.join(loc, 'batches', 'xyz-batch-*.jbdmp')):
+        i = int(re.findall(r'xyz-batch-(\d+)\.jbdmp$', f)[0])
+        with open(f, 'rb') as fh:
+            b = pickle.load(fh)
+        out[i] = [[sw['values'][a].index(kw[a]) for a in fa] for kw in b]
+    return out
+
+
 def classify(e, reap=False):
     from xyzpy.utils import XYZError
     if reap and isinstance(e, XYZError) and 'not ready' in str(e): return 'notReady'
@@ -86,6 +99,8 @@ def run_history(h, ctx, farmer=None):
                              'ready': bool(crop.is_ready_to_reap())}
                         try: o['missing'] = list(crop.missing_results())
                         except Exception as e: o['missing'] = {'err': 'fail', 'exc': type(e).__name__}
+                        m = re.search(r'(-?\d+) / (\S+) batches of size', str(crop))
+                        ent_str = [m.group(1), m.group(2)] if m else None
                     elif k == 'reap':
                         kw = {}
                         if 'clean_up' in op: kw['clean_up'] = op['clean_up']
@@ -96,7 +111,12 @@ def run_history(h, ctx, farmer=None):
             except Exception as e:
                 if isinstance(e, RuntimeError) and 'unknown op' in str(e): raise
                 o = {'err': classify(e, reap=(k == 'reap')), 'exc': type(e).__name__, 'msg': str(e)[:120]}
-            obs.append({'o': o, 'ls': ls(loc)})
+            ent = {'o': o, 'ls': ls(loc)}
+            if k == 'query':
+                ent['str'] = locals().get('ent_str')
+            if k == 'sow' and o is None:
+                ent['batches'] = read_batches(loc, sorted_sweep(sw))
+            obs.append(ent)
         return obs
     finally:
         os.environ.pop(fns.FAIL_ENV, None)
